@@ -26,7 +26,10 @@ P = {
  "C04": ("GT.Props.C04: invariant MeasureB.Inv (Σ=Λ⁻¹, ln det Σ = log det Σ = −log det Λ, μ=Σν, lnZ Gaussian) preserved by every product path "
          "(full inversion, Sherman–Morrison + determinant lemma via GT.Math.RankOne, covariance reuse), queries, normalize, get_density, the "
          "density constructor; C04_reachable by induction over an inductive Reachable (all history lengths); C04_query_independence(_mass). "
-         "Conditionals/joints: C07_joint_inv, C08_marginal_inv, C09_posterior_condOK, C06_cond_condOK.", "§5 C04"),
+         "GT.Props.C04Ext: C04X_reachable over ReachableX (26 constructors: the former plus slice with arbitrary — repeated, wrapped negative — index "
+         "arrays, product(), in-place update, get_marginal, linear sums, condition_on(+_explicit)+condition_on_x, the three affine transformations "
+         "of all conditional classes) — every object any such history produces satisfies the invariant; query independence across slice, "
+         "product and update (C04X_*_query_independence); C04X_slice_returns, C04X_density_view (the Option hypotheses never restrict a history).", "§5 C04"),
  "C05": ("GT.Props.C05: C05_marginal_evalLn / _params / _perm (any index order), C05_linear_sum_evalLn(_of_fullRank), "
          "C05_marginal_density_integral (marginal density = integral of the joint over the dropped coordinates).", "§5 C05"),
  "C06": ("GT.Props.C06: C06_cond_params, C06_product_rule(_model): p(x_a|x_b)p(x_b)=p(x) for every index partition given as an "
